@@ -27,11 +27,13 @@ Mk(tm, lvl) ==
    plugin |-> "none", verdictTI |-> "success", verdictREV |-> "success", crit |-> "none"]
 
 Certs == UNION {[1..n -> Windows] : n \in ChainLens}
-(* notary.x509 : the claimed signing time is irrelevant (kept before any expiry); signing authority : no countersignature dimension *)
+(* notary.x509 : the claimed signing time is irrelevant (kept before any expiry; without expiry also after the countersignature's
+   time and after the moment of verification); signing authority : no countersignature dimension *)
 Init == \E lvl \in Levels : \E cs \in Certs :
    \/ \E e \in {0, -1, 1} : \E listed \in BOOLEAN : \E opt \in {"unset", "always", "afterCertExpiry"} :
         \E c \in (IF listed THEN CSKinds ELSE {NoCS, [kind |-> "ok", t |-> -1, acc |-> 0]}) :
-           s = Start(Mk([scheme |-> "x509", expiry |-> e, signing |-> -3, certs |-> cs, tsaListed |-> listed, opt |-> opt, cs |-> c], lvl))
+         \E sg \in (IF e = 0 /\ c.kind = "ok" THEN {-3, -1, 2} ELSE {-3}) :     \* the signer's clock may run ahead of the TSA's (or of ours)
+           s = Start(Mk([scheme |-> "x509", expiry |-> e, signing |-> sg, certs |-> cs, tsaListed |-> listed, opt |-> opt, cs |-> c], lvl))
    \/ \E sg \in T : \E e \in {0} \cup {x \in T : x > sg} : \E listed \in BOOLEAN :
            s = Start(Mk([scheme |-> "sa", expiry |-> e, signing |-> sg, certs |-> cs, tsaListed |-> listed, opt |-> "unset", cs |-> NoCS], lvl))
 Next == s.pc # "done" /\ s' = StepFn(s)
